@@ -749,9 +749,7 @@ func raceKey(blk string) string {
 		t := strings.TrimSpace(l)
 		if (strings.HasPrefix(t, "Write at") || strings.HasPrefix(t, "Read at") || strings.HasPrefix(t, "Previous write at") || strings.HasPrefix(t, "Previous read at")) && i+1 < len(lines) {
 			fn := strings.TrimSpace(lines[i+1])
-			if p := strings.IndexByte(fn, '('); p > 0 {
-				fn = fn[:p]
-			}
+			fn = strings.TrimSuffix(fn, "()")
 			fns = append(fns, fn)
 		}
 	}
